@@ -996,6 +996,9 @@ func (st *c07Child) handle(req string) string {
 	fi, _ := strconv.Atoi(f[4])
 	off, _ := strconv.Atoi(f[5])
 	val, _ := strconv.ParseUint(f[6], 10, 64)
+	if f[3] == "pipeopen" {
+		return c07PipeOpen(srv, alloc, filepath.Join(st.base, "w"), fi, int(val))
+	}
 	s := st.corpus[srv][si]
 	ref := st.ref(srv, alloc, si)
 	if ref.err != "" {
@@ -1217,7 +1220,7 @@ func runC07(c *Ctx) {
 		"every type byte replaced (mut=type; quick: 18 values), garbage appended (mut=garbage), the attribute block of every OPEN/SETSTAT/FSETSTAT shortened by 1..its length with the frame length adjusted (mut=attrcut, off=bytes removed); " +
 		"a frame that passes makePacket but whose attribute block is shorter than its flags declare counts as malformed (short-attrs): the stream is ended right after it, it must be answered with a failure status and leave the backend untouched; frames longer than 160 (thorough 1200) bytes are sampled (first 48, last 12, every 61st offset). " +
 		"Each stream is served in a child process: the leading packets that frame and decode are sent one at a time, each answered before the next, the rest in one write, then EOF; oracle: no crash, Serve returns in 10s, responses are a prefix of the reference responses to the identical leading frames, backend equals the state after those frames, " +
-		"no goroutine, descriptor or handler object left. Mutants whose first changed frame still decodes are different valid requests: only the crash/hang/leak oracles apply to them (stat class_valid). " +
+		"no goroutine, descriptor or handler object left. mut=pipeopen: INIT, then frame= OPEN/OPENDIR requests in one write without waiting for replies, then the end (val: 0 EOF, 1 cut frame, 2 zero length, 3 undecodable OPEN): only the crash/hang/leak oracles. Mutants whose first changed frame still decodes are different valid requests: only the crash/hang/leak oracles apply to them (stat class_valid). " +
 		"non-trivial = the first thing that differs from the valid session is malformed (does not frame or does not decode)")
 	root, err := os.MkdirTemp("", "vh-c07-")
 	if err != nil {
@@ -1244,6 +1247,9 @@ func runC07(c *Ctx) {
 					cs.g, cs.class, cs.sub, _ = c07Classify(s, c07Apply(s, m, garbage))
 					cases = append(cases, cs)
 				}
+			}
+			for _, m := range c07PipeMutations(c.Thorough()) {
+				cases = append(cases, &c07Case{srv: srv, alloc: alloc, sess: 0, m: m, g: 1, class: "bad", sub: "pipelined-opens-then-end"})
 			}
 		}
 	}
